@@ -8,6 +8,7 @@
 -/
 import Proofs.ParseFrame
 import Proofs.StepAll
+import Model.Serial
 
 namespace Measured
 open St
@@ -358,5 +359,96 @@ theorem aliasUnit_binds {s : St} (h : Faithful s) {a : UId} (ha : a < s.units.le
         by_cases hy : (y == "") = true
         · simp only [bindSym, hy, if_true]; exact hlog
         · simp only [bindSym, hy, Bool.false_eq_true, if_false]; exact hlog
+
+end Measured
+
+namespace Measured
+open St
+
+/-! ### names are only ever added -/
+
+theorem bindName_log (s : St) (a : UId) (name : Option String) :
+    ∃ ext, (s.bindName a name).nameLog = s.nameLog ++ ext := by
+  cases name with
+  | none => exact ⟨[], by simp [bindName]⟩
+  | some n =>
+    by_cases hne : (n == "") = true
+    · exact ⟨[], by simp [bindName, hne]⟩
+    · exact ⟨[(a, n)], by simp [bindName, hne]⟩
+
+theorem bindSym_log (s : St) (a : UId) (sym : Option String) : (s.bindSym a sym).nameLog = s.nameLog := by
+  cases sym with
+  | none => rfl
+  | some n => by_cases hne : (n == "") = true <;> simp [bindSym, hne]
+
+theorem aliasUnit_log (s : St) (a : UId) (name sym : Option String) :
+    ∃ ext, (s.aliasUnit a name sym).1.nameLog = s.nameLog ++ ext := by
+  unfold aliasUnit
+  split
+  · exact ⟨[], by simp⟩
+  · split
+    · exact ⟨[], by simp⟩
+    · obtain ⟨ext, h⟩ := bindName_log s a name
+      exact ⟨ext, by simp only [bindSym_log]; exact h⟩
+
+theorem step_log (s : St) (o : Op) : ∃ ext, (step s o).1.nameLog = s.nameLog ++ ext := by
+  have fr : ∀ {s' : St}, Frame s s' → ∃ ext, s'.nameLog = s.nameLog ++ ext := fun f => ⟨[], by rw [f.nameLog]; simp⟩
+  cases o with
+  | mul a b => exact fr (mulUnit_frame s a b).1
+  | div a b => exact fr (divUnit_frame s a b).1
+  | pow a n => exact fr (powUnit_frame s a n)
+  | root a n => exact fr (rootUnit_frame s a n)
+  | ratio a => exact fr (asRatio_frame s a)
+  | unprefixed a => exact fr (unprefixedUnit_frame s a)
+  | pmul p a => exact fr (pmulUnit_frame s p a).1
+  | define d name sym =>
+    simp only [step]
+    unfold defineUnit
+    split
+    · exact ⟨[], by simp⟩
+    · split
+      · exact ⟨[], by simp⟩
+      · split
+        · exact ⟨[], by simp⟩
+        · simp only
+          obtain ⟨ext, h⟩ := aliasUnit_log (s.appendBase d) s.units.length (some name) (some sym)
+          exact ⟨ext, by rw [h]; rfl⟩
+  | derive a name sym =>
+    simp only [step]
+    unfold deriveUnit
+    obtain ⟨ext, h⟩ := aliasUnit_log s a (some name) (some sym)
+    cases hr : s.aliasUnit a (some name) (some sym) with
+    | mk s' r => rw [hr] at h; cases r <;> exact ⟨ext, h⟩
+  | «alias» a name sym =>
+    simp only [step]
+    obtain ⟨ext, h⟩ := aliasUnit_log s a name sym
+    cases hr : s.aliasUnit a name sym with
+    | mk s' r => rw [hr] at h; cases r <;> exact ⟨ext, h⟩
+  | resolve t => exact fr (resolveSymbol_frame s t).1
+  | named n =>
+    simp only [step]
+    split <;> exact ⟨[], by simp⟩
+
+theorem run_log (s : St) (ops : List Op) : ∃ ext, (run s ops).nameLog = s.nameLog ++ ext := by
+  induction ops generalizing s with
+  | nil => exact ⟨[], by simp [run]⟩
+  | cons o rest ih =>
+    have h1 : ∃ e1, (stepC s o).1.nameLog = s.nameLog ++ e1 := by
+      unfold stepC; split
+      · exact step_log s o
+      · exact ⟨[], by simp⟩
+    obtain ⟨e1, h1⟩ := h1
+    obtain ⟨e2, h2⟩ := ih (stepC s o).1
+    exact ⟨e1 ++ e2, by show (run (stepC s o).1 rest).nameLog = _; rw [h2, h1, List.append_assoc]⟩
+
+/-- a unit that has a name keeps its first name through every history -/
+theorem firstName_stable (s : St) (ops : List Op) (i : UId) (n : String) (h : s.firstName i = some n) :
+    (run s ops).firstName i = some n := by
+  obtain ⟨ext, he⟩ := run_log s ops
+  unfold firstName namesOf at h ⊢
+  rw [he, List.filter_append, List.map_append]
+  cases hl : (s.nameLog.filter (fun e => e.1 == i)).map (·.2) with
+  | nil => rw [hl] at h; cases h
+  | cons x rest => rw [hl] at h; simpa using h
 
 end Measured
